@@ -84,6 +84,8 @@ pub struct Limits3 {
     pub iterations: usize,
     pub forks: usize,
     pub gas: usize,
+    /// permissive error mode (the bounds do not depend on which errors are reported)
+    pub permissive: bool,
 }
 
 fn grid(full: bool) -> Vec<Limits3> {
@@ -98,11 +100,13 @@ fn grid_for(full: bool, thorough: bool) -> Vec<Limits3> {
             iterations: 12,
             forks: 60,
             gas: BLOCK_GAS_LIMIT,
+            permissive: false,
         });
         v.push(Limits3 {
             iterations: 12,
             forks: 1,
             gas: 300,
+            permissive: false,
         });
     }
     if full {
@@ -113,6 +117,7 @@ fn grid_for(full: bool, thorough: bool) -> Vec<Limits3> {
                         iterations: i,
                         forks: f,
                         gas: g,
+                        permissive: false,
                     });
                 }
             }
@@ -122,18 +127,28 @@ fn grid_for(full: bool, thorough: bool) -> Vec<Limits3> {
             iterations: 1,
             forks: 1,
             gas: BLOCK_GAS_LIMIT,
+            permissive: false,
         });
         v.push(Limits3 {
             iterations: 2,
             forks: 3,
             gas: 300,
+            permissive: false,
         });
         v.push(Limits3 {
             iterations: 3,
             forks: 2,
             gas: BLOCK_GAS_LIMIT,
+            permissive: false,
         });
     }
+    // the same bounds in permissive error mode, for the tightest and one middling setting
+    let extra: Vec<Limits3> = v
+        .iter()
+        .filter(|l| (l.iterations, l.forks) == (1, 1) || (l.iterations, l.forks, l.gas) == (2, 3, 300))
+        .map(|l| Limits3 { permissive: true, ..*l })
+        .collect();
+    v.extend(extra);
     v
 }
 
@@ -142,6 +157,7 @@ fn config(l: &Limits3) -> sle::vm::Config {
         .with_max_iterations_per_opcode(l.iterations)
         .with_max_forks_per_fork_target(l.forks)
         .with_gas_limit(l.gas)
+        .with_permissive_errors(l.permissive)
 }
 
 pub struct Verdict {
@@ -408,7 +424,7 @@ impl Check for C03 {
                             Ok(Some(f)) => {
                                 if f.iteration || f.fork || f.gas {
                                     ctx.count("runs_where_a_limit_fired", 1);
-                                    ctx.distinct("nontrivial", crate::util::h64(&(&code, lim.iterations, lim.forks, lim.gas)));
+                                    ctx.distinct("nontrivial", crate::util::h64(&(&code, lim.iterations, lim.forks, lim.gas, lim.permissive)));
                                 }
                                 if f.iteration {
                                     ctx.count("iteration_limit_fired", 1);
@@ -427,7 +443,7 @@ impl Check for C03 {
                             Err(v) => ctx.violation(
                                 v.key,
                                 format!("{} [{seq:?} = {}]", v.what, hex(&code)),
-                                json!({"bytes": hex(&code), "iterations": lim.iterations, "forks": lim.forks, "gas": lim.gas}),
+                                json!({"bytes": hex(&code), "iterations": lim.iterations, "forks": lim.forks, "gas": lim.gas, "permissive": lim.permissive}),
                             ),
                         }
                     }
@@ -507,7 +523,7 @@ impl Check for C03 {
         let rule = format!(
             "(a) all token sequences <= {} over 14 control-flow tokens (JUMPDEST, CALLVALUE, PUSH 1, POP, DUP1, ADD, STOP, JUMP / \
              CALLVALUE-conditioned JUMPI to each of 3 labels, JUMP out of range): tight and nested loops, self-jumps, stack-growing \
-             loops, fork bombs; crossed with the full grid iterations {{1,2,3}} x forks {{1,2,3}} x gas {{50,300,block}} up to length {} \
+             loops, fork bombs; crossed with the full grid iterations {{1,2,3}} x forks {{1,2,3}} x gas {{50,300,block}} (plus the settings with limits (1,1) and (2,3,300) in permissive error mode) up to length {} \
              and 3 settings beyond. The VM is driven directly: finishes within an analytic step budget, per-state visit counts <= \
              iteration limit, per-target fork counts <= fork limit, states <= 1 + forks x jumpdests, cumulative minimum gas <= limit + \
              one instruction. (b) all stack-safe read-mask-write sequences <= {} over 10 tokens{}: analyze() must finish within {} \
@@ -543,6 +559,7 @@ impl Check for C03 {
                 iterations: c["iterations"].as_u64().unwrap() as usize,
                 forks: c["forks"].as_u64().unwrap() as usize,
                 gas: c["gas"].as_u64().unwrap() as usize,
+                permissive: c["permissive"].as_bool().unwrap_or(false),
             };
             match check_vm(&code, &lim) {
                 Err(v) => {
